@@ -175,7 +175,7 @@ func runC03(p *Program, r *Result) {
 				ht := p.TB(hMarshalNoMAC)
 				recv := short(ht.Term(c.Common().Args[0]).String())
 				w := ht.Term(c.Common().Args[1]).String()
-				if recv == "Elem(Field(Recv.Recipients), (RangeIdx() + 1))" && w == "P1" {
+				if recv == "Elem(Field(Recv.Recipients), (RangeIdx#1 + 1))" && w == "P1" {
 					if _, ok := errCheckedWithExit(p, c); ok {
 						okLoop = true
 						r.OK(hMarshalNoMAC.String(), "loop:Recipients", r.pos(c), "range over all recipients, each marshalled to w in order, error returned")
